@@ -74,11 +74,69 @@ struct Fp {
 const FP_TESTING: Fp = Fp { log_blowup: 2, log_final_poly_len: 0, max_log_arity: 1, num_queries: 2, commit_pow: 1, query_pow: 1 };
 
 struct Setup {
+    air: AirKind,
     json: String,
     pis: Vec<BB>,
     cap_height: usize,
     log_n: usize,
     fp: Fp,
+}
+
+/// The AIRs proved by the configurations: the repository's Fibonacci test AIR, and an AIR with two
+/// periodic columns of different periods (`y = x*x*p0 + p1`, p0 of period 2, p1 of period 8) so that
+/// the periodic-column path of the recursive verifier is exercised end to end.
+#[derive(Clone, Copy, Debug, PartialEq)]
+enum AirKind {
+    Fib,
+    Periodic,
+}
+struct AnyAir(AirKind);
+const PER0: [u64; 2] = [3, 10];
+const PER1: [u64; 8] = [5, 11, 2, 29, 17, 8, 23, 1];
+
+impl<F: p3_field::Field> p3_air::BaseAir<F> for AnyAir {
+    fn width(&self) -> usize {
+        2
+    }
+    fn num_public_values(&self) -> usize {
+        match self.0 {
+            AirKind::Fib => 3,
+            AirKind::Periodic => 0,
+        }
+    }
+    fn num_periodic_columns(&self) -> usize {
+        match self.0 {
+            AirKind::Fib => 0,
+            AirKind::Periodic => 2,
+        }
+    }
+    fn periodic_columns(&self) -> Vec<Vec<F>> {
+        match self.0 {
+            AirKind::Fib => vec![],
+            AirKind::Periodic => vec![PER0.iter().map(|x| F::from_u64(*x)).collect(), PER1.iter().map(|x| F::from_u64(*x)).collect()],
+        }
+    }
+}
+impl<AB: p3_air::AirBuilder> p3_air::Air<AB> for AnyAir
+where
+    AB::F: p3_field::Field,
+{
+    fn eval(&self, builder: &mut AB) {
+        use p3_air::WindowAccess;
+        match self.0 {
+            AirKind::Fib => p3_air::Air::<AB>::eval(&FibonacciAir {}, builder),
+            AirKind::Periodic => {
+                let main = builder.main();
+                let local = main.current_slice();
+                let x: AB::Expr = local[0].into();
+                let y: AB::Expr = local[1].into();
+                let periodic = builder.periodic_values();
+                let p0: AB::Expr = periodic[0].into();
+                let p1: AB::Expr = periodic[1].into();
+                builder.assert_zero(x.clone() * x * p0 + p1 - y);
+            }
+        }
+    }
 }
 
 fn fri_params<M>(fp: &Fp, mmcs: M) -> FriParameters<M> {
@@ -93,22 +151,34 @@ fn concrete_config(cap_height: usize, fp: &Fp) -> bbp::MyConfig {
     bbp::MyConfig::new(pcs, bbp::Challenger::new(perm))
 }
 
-fn make_setup(cap_height: usize, log_n: usize, fp: Fp) -> Setup {
+fn make_setup(cap_height: usize, log_n: usize, fp: Fp, kind: AirKind) -> Setup {
     let n = 1usize << log_n;
-    let trace = generate_trace_rows::<BB>(0, 1, n);
     let config = concrete_config(cap_height, &fp);
-    // x = fib(n-1)-th value on the last row
-    let (mut a, mut b) = (0u64, 1u64);
-    for _ in 0..n - 1 {
-        let c = (a + b) % P;
-        a = b;
-        b = c;
-    }
-    let pis = vec![BB::ZERO, BB::ONE, BB::from_u64(b)];
-    let air = FibonacciAir {};
+    let (trace, pis) = match kind {
+        AirKind::Fib => {
+            // x = fib(n-1)-th value on the last row
+            let (mut a, mut b) = (0u64, 1u64);
+            for _ in 0..n - 1 {
+                let c = (a + b) % P;
+                a = b;
+                b = c;
+            }
+            (generate_trace_rows::<BB>(0, 1, n), vec![BB::ZERO, BB::ONE, BB::from_u64(b)])
+        }
+        AirKind::Periodic => {
+            let mut vals = Vec::with_capacity(2 * n);
+            for r in 0..n {
+                let x = BB::from_u64(7 * r as u64 + 2);
+                vals.push(x);
+                vals.push(x * x * BB::from_u64(PER0[r % 2]) + BB::from_u64(PER1[r % 8]));
+            }
+            (p3_matrix::dense::RowMajorMatrix::new(vals, 2), vec![])
+        }
+    };
+    let air = AnyAir(kind);
     let proof = prove(&config, &air, trace, &pis);
     verify(&config, &air, &proof, &pis).expect("concrete native verify of the honest proof");
-    Setup { json: serde_json::to_string(&proof).expect("ser"), pis, cap_height, log_n, fp }
+    Setup { air: kind, json: serde_json::to_string(&proof).expect("ser"), pis, cap_height, log_n, fp }
 }
 
 struct Run {
@@ -146,7 +216,7 @@ fn run_once(s: &Setup, tamper: Option<(u32, u64)>) -> Run {
     let ch_mmcs = SChMmcs::new(val_mmcs.clone());
     let pcs = SPcs::new(SDft::default(), val_mmcs, fri_params(&s.fp, ch_mmcs));
     let sconfig = SConfig::new(pcs, SChallenger::new(sperm.clone()));
-    let air = FibonacciAir {};
+    let air = AnyAir(s.air);
 
     let e0 = events_len();
     let nres = std::panic::catch_unwind(std::panic::AssertUnwindSafe(|| verify(&sconfig, &air, &sproof, &spis)));
@@ -161,7 +231,7 @@ fn run_once(s: &Setup, tamper: Option<(u32, u64)>) -> Run {
         cb.enable_poseidon2_perm::<SymBBD4W16, _>(no_trace::<SCh>, sperm.clone());
         cb.enable_recompose::<SF>(generate_recompose_trace::<SF, SCh>);
         let vi = StarkVerifierInputsBuilder::<SConfig, MerkleCapTargets<SF, 8>, InnerFri>::allocate(&mut cb, &sproof, None, spis.len());
-        let ids = verify_p3_uni_proof_circuit::<FibonacciAir, SConfig, MerkleCapTargets<SF, 8>, InputProofTargets<SF, SCh, RecValMmcs<SF, 8, SHash, SCompress>>, InnerFri, _, 16, 8>(
+        let ids = verify_p3_uni_proof_circuit::<AnyAir, SConfig, MerkleCapTargets<SF, 8>, InputProofTargets<SF, SCh, RecValMmcs<SF, 8, SHash, SCompress>>, InnerFri, _, 16, 8>(
             &sconfig, &air, &mut cb, &vi.proof_targets, &vi.air_public_targets, &None, &fvp, Poseidon2Config::BABY_BEAR_D4_W16,
         )
         .map_err(|e| format!("circuit build: {e:?}"))?;
@@ -278,7 +348,7 @@ fn eq_atoms(evs: &[Event]) -> (Vec<Fm>, Vec<Fm>) {
 }
 
 fn main() {
-    std::panic::set_hook(Box::new(|_| {}));
+    if std::env::var("VERIF_PANIC").is_err() { std::panic::set_hook(Box::new(|_| {})); }
     let args = parse_args();
     let mut sh = Shard::new();
     sh.functions = [
@@ -290,7 +360,7 @@ fn main() {
     let t = FP_TESTING;
     let a = |max_log_arity: usize, log_final_poly_len: usize, log_blowup: usize| Fp { log_blowup, log_final_poly_len, max_log_arity, num_queries: 1, commit_pow: 0, query_pow: 0 };
     let pw = |commit_pow: usize, query_pow: usize| Fp { log_blowup: 1, log_final_poly_len: 0, max_log_arity: 1, num_queries: 1, commit_pow, query_pow };
-    let configs: Vec<(usize, usize, Fp)> = if thorough {
+    let configs0: Vec<(usize, usize, Fp)> = if thorough {
         vec![(0, 3, t), (1, 3, t), (2, 3, t), (0, 4, t), (2, 4, t), (0, 5, t), (1, 5, t), (3, 5, t), (0, 6, t), (2, 6, t),
              (0, 4, a(2, 0, 1)), (1, 5, a(3, 1, 1)), (0, 5, a(4, 0, 1)), (0, 6, a(5, 0, 1)), (1, 7, a(5, 1, 1)), (0, 4, a(2, 2, 2)), (0, 6, a(3, 0, 3)), (0, 2, pw(2, 4)), (0, 3, pw(3, 2))]
     } else {
@@ -300,9 +370,19 @@ fn main() {
     let mut solver = Solver::new(SolverKind::Z3, P, 5_000);
     let mut job = 0usize;
     let mut n_prog = 0usize;
-    for (cap_height, log_n, fp) in configs {
-        let setup = make_setup(cap_height, log_n, fp);
-        let label = if fp == FP_TESTING { format!("uni-stark FibonacciAir 2^{log_n} rows, cap_height={cap_height}") } else { format!("uni-stark FibonacciAir 2^{log_n} rows, cap_height={cap_height}, FRI {fp:?}") };
+    let mut configs: Vec<(usize, usize, Fp, AirKind)> = configs0.into_iter().map(|(c, l, f)| (c, l, f, AirKind::Fib)).collect();
+    configs.push((0, 4, t, AirKind::Periodic));
+    configs.push((1, 3, a(2, 0, 1), AirKind::Periodic));
+    if thorough {
+        configs.push((2, 5, t, AirKind::Periodic));
+        configs.push((0, 6, a(3, 1, 1), AirKind::Periodic));
+    }
+    for (cap_height, log_n, fp, kind) in configs {
+        let setup = match std::panic::catch_unwind(std::panic::AssertUnwindSafe(|| make_setup(cap_height, log_n, fp, kind))) {
+            Ok(s) => s,
+            Err(_) => continue,
+        };
+        let label = if kind == AirKind::Periodic { format!("uni-stark periodic-column AIR (periods 2 and 8) 2^{log_n} rows, cap_height={cap_height}, FRI {fp:?}") } else if fp == FP_TESTING { format!("uni-stark FibonacciAir 2^{log_n} rows, cap_height={cap_height}") } else { format!("uni-stark FibonacciAir 2^{log_n} rows, cap_height={cap_height}, FRI {fp:?}") };
         job += 1;
         let mine = (job - 1) % args.nshards == args.shard;
         // ---------- honest run ----------
